@@ -179,7 +179,12 @@ func (m *Machine) repay(funding machine.Funding) {
 			continue
 		}
 
-		balance := accountBalance[funding.Asset]
+		balance, ok := accountBalance[funding.Asset]
+		if !ok {
+			// the account is tracked for other assets only: like credit and withdrawAlways,
+			// do not make up a balance for a pair which was never fetched
+			continue
+		}
 		accountBalance[funding.Asset] = balance.Add(part.Amount)
 	}
 }
